@@ -116,7 +116,7 @@ pub fn wait_turn() -> Turn {
             };
         }
         s = TURN
-            .wait_timeout(s, std::time::Duration::from_secs(20))
+            .wait_timeout(s, std::time::Duration::from_secs(3))
             .map(|(g, _)| g)
             .unwrap_or_else(|e| e.into_inner().0);
     }
